@@ -30,8 +30,10 @@ Judge(checks) ==
 \* statistics.add(index, path): path `s` (its serial in simulation order) stored at index idx
 AddStep ==
     /\ More /\ E.e = "Add"
-    /\ Judge(<< <<"EachPathOnceAtItsIndex", E.idx \in 0..(N - 1) /\ E.idx \notin stored /\ E.s = E.idx + 1
-                                             /\ \A c \in 1..H.dim : E.y[c] = H.ys[c][E.s]>> >>)
+    \* (several worker processes: which worker simulates which index is not scripted; every path carries the same value)
+    /\ Judge(<< <<"EachPathOnceAtItsIndex", E.idx \in 0..(N - 1) /\ E.idx \notin stored
+                                             /\ (H.multi \/ E.s = E.idx + 1)
+                                             /\ \A c \in 1..H.dim : E.y[c] = H.ys[c][IF H.multi THEN 1 ELSE E.s]>> >>)
     /\ stored' = stored \cup {E.idx} /\ ln' = ln + 1 /\ UNCHANGED <<tid, fin>>
 
 ErrNum(y) == N * SumSeq(Sq(y)) - SumSeq(y) * SumSeq(y)
@@ -42,7 +44,8 @@ Adj(x, y, k) == y[k] * Bden(x) * N - Bnum(x, y) * (N * x[k] - SumSeq(x))
 RawOK == /\ stored = 0..(N - 1)
          /\ Len(E.rows) = N /\ \A k \in 1..N : \A c \in 1..H.dim : E.rows[k][c] = H.ys[c][k]
          /\ \A c \in 1..H.dim : E.priceN[c] = SumSeq(H.ys[c])
-ErrOK == \A c \in 1..H.dim : E.errN[c] = ErrNum(H.ys[c])
+\* (the variance is that of the deviations from any common part: H.yd = H.ys minus a constant, small numbers)
+ErrOK == \A c \in 1..H.dim : E.errN[c] = ErrNum(H.yd[c])
 \* one control, price = sample mean of the control: adjusted samples exact, mean unchanged
 OneControlOK ==
     H.ncv # 1 \/ \A c \in 1..H.dim :
